@@ -53,8 +53,27 @@ def eval_hol_expr(t: Term):
 
     return res
 
+def eval_bounds(t: Term):
+    """Lower and upper bound of the value of an HOL term of type real.
+
+    The bounds coincide when real_eval succeeds. Otherwise they come from
+    interval arithmetic with outward rounding (real_interval_eval).
+
+    """
+    try:
+        res = real.real_eval(t)
+        return res, res
+    except ConvException:
+        return real.real_interval_eval(t)
+
 def eval_inequality_expr(t):
-    """Evaluate inequality between constants of type nat or real."""
+    """Decide an (in)equality between constants of type nat or real.
+
+    Return True only if the statement certainly holds: an inequality that
+    cannot be separated by the computed bounds, or an equality between
+    values that are not computed exactly, is not accepted.
+
+    """
     body = t.arg if t.is_not() else t
     if not (body.is_equals() or body.is_compares()):
         raise NotImplementedError
@@ -63,24 +82,31 @@ def eval_inequality_expr(t):
     # numbers is truncated, so nat terms cannot be evaluated as reals.
     T = body.arg1.get_type()
     if T == NatType:
-        ev = nat.nat_eval
+        lo1 = hi1 = nat.nat_eval(body.arg1)
+        lo2 = hi2 = nat.nat_eval(body.arg)
     elif T == RealType:
-        ev = eval_hol_expr
+        lo1, hi1 = eval_bounds(body.arg1)
+        lo2, hi2 = eval_bounds(body.arg)
+        if (lo1 != hi1 or lo2 != hi2) and \
+           real.convert_to_poly(body.arg1) == real.convert_to_poly(body.arg):
+            # Not computed exactly, but equal as polynomials in the
+            # irrational subterms (e.g. pi / 2 and 1 / 2 * pi).
+            lo1 = hi1 = lo2 = hi2 = 0
     else:
         raise NotImplementedError
 
     if t.is_equals():
-        return ev(t.arg1) == ev(t.arg)
+        return lo1 == hi1 and lo2 == hi2 and lo1 == lo2
     elif t.is_not() and t.arg.is_equals():
-        return ev(t.arg.arg1) != ev(t.arg.arg)
+        return hi1 < lo2 or hi2 < lo1
     elif t.is_greater_eq():
-        return ev(t.arg1) >= ev(t.arg)
+        return lo1 >= hi2
     elif t.is_greater():
-        return ev(t.arg1) > ev(t.arg)
+        return lo1 > hi2
     elif t.is_less_eq():
-        return ev(t.arg1) <= ev(t.arg)
+        return hi1 <= lo2
     elif t.is_less():
-        return ev(t.arg1) < ev(t.arg)
+        return hi1 < lo2
     else:
         raise NotImplementedError
 
